@@ -250,14 +250,27 @@ func pickSplit(goal *Term, tried map[*Term]bool) *Term {
 
 // lazySplit: lazyProve, and when that is undecided, a case analysis on a condition of the goal's conditional
 // terms (both cases must be proved; in each case the condition is replaced by its value everywhere).
-func lazySplit(goal *Term, cands []*Term, extra []string, fpMode string, dir, name string, callTimeoutS, maxIter int, keep bool, depth int, deadline time.Time) SolveResult {
-	r, _ := lazyProve(goal, cands, extra, fpMode, dir, name, callTimeoutS, maxIter, keep, deadline)
-	if r.Status == "unsat" || depth <= 0 || time.Now().After(deadline) {
-		return r
+func lazySplit(goal *Term, cands []*Term, extra []string, fpMode string, dir, name string, callTimeoutS, maxIter int, keep bool, depth int, deadline time.Time, lazyHints []*Term) SolveResult {
+	// a hinted condition that the goal mentions is split on right away
+	var c *Term
+	if depth > 0 {
+		for _, h := range lazyHints {
+			if h.Op != "true" && h.Op != "false" && occursIn(h, goal) {
+				c = h
+				break
+			}
+		}
 	}
-	c := pickSplit(goal, map[*Term]bool{})
+	var r SolveResult
 	if c == nil {
-		return r
+		r, _ = lazyProve(goal, cands, extra, fpMode, dir, name, callTimeoutS, maxIter, keep, deadline)
+		if r.Status == "unsat" || depth <= 0 || time.Now().After(deadline) {
+			return r
+		}
+		c = pickSplit(goal, map[*Term]bool{})
+		if c == nil {
+			return r
+		}
 	}
 	desc := ""
 	for k, val := range []*Term{True, False} {
@@ -274,7 +287,7 @@ func lazySplit(goal *Term, cands []*Term, extra []string, fpMode string, dir, na
 		if nq.Goal.Op == "true" {
 			continue
 		}
-		r2 := lazySplit(nq.Goal, nq.Hyps, extra, fpMode, dir, fmt.Sprintf("%s.case%d", name, k), callTimeoutS, maxIter, keep, depth-1, deadline)
+		r2 := lazySplit(nq.Goal, nq.Hyps, extra, fpMode, dir, fmt.Sprintf("%s.case%d", name, k), callTimeoutS, maxIter, keep, depth-1, deadline, lazyHints)
 		if r2.Status != "unsat" {
 			return SolveResult{Status: "unknown"}
 		}
